@@ -206,7 +206,10 @@ public:
 
         if ((level0.currentTick & _tickMask) == 0)
         {
-          cascadeDown(1, now, toFire);
+          // Catch-up: this tick step lies (ticksToProcess - 1 - t) ticks before `now`. Cascaded
+          // entries are re-inserted relative to the step's own time, or the remaining catch-up
+          // steps of this very call sweep them up to that many ticks early.
+          cascadeDown(1, now - _tickDuration * static_cast<std::int64_t>(ticksToProcess - 1 - t), toFire);
         }
       }
     }
